@@ -13,7 +13,7 @@ import net_check
 
 PID = "C17"
 RULE = ("correspondence: ImperviousSurface.precipitation_evaporation, Surface.simple_deposition, ResidentialDemand."
-        "get_house_demand, Demand / ResidentialDemand.create_demand (family demand, coq/Demand.v) and the Catchment functions (get_flow, get_avail, route, abstractions through its out-arcs) against "
+        "get_house_demand, Demand / ResidentialDemand.create_demand (family demand, coq/Demand.v), Land.run with impervious and pervious surfaces (family land, coq/LandV.v) and the Catchment functions (get_flow, get_avail, route, abstractions through its out-arcs) against "
         "coq/Boundary.v and coq/Kinds.v on random parameters and forcing (zero rain, rain below / above potential evaporation, "
         "areas different from 1, populations incl. 0). monitor: random whole models, at every timestep the declared boundary "
         "terms against the configuration data: catchment inflow = flow and concentration x flow, released = flow; rain on "
@@ -29,6 +29,8 @@ if __name__ == "__main__":
         K.correspondence(rep, "catch", n, 8, tag="c17", maxdigits=30)
         import corr_demand  # noqa: F401
         K.correspondence(rep, "demand", n, 8, tag="c17", maxdigits=30)
+        import corr_land  # noqa: F401
+        K.correspondence(rep, "land", 1200 if thorough else 150, 6, tag="c17", maxdigits=80)
         import mon_c17m
         mon_c17m.run(rep, thorough)
         return {}
